@@ -1130,6 +1130,10 @@ SRC_ITEMS = [
          self_attrs={"lower_bound": "lo", "upper_bound": "hi"}),
     dict(file=PRIOR_PY, qualname="Uniform.prob", name="uniform_prob_src", rettype="R", params=[("p", "R")],
          self_attrs={"lower_bound": "lo", "upper_bound": "hi", "interval": "iv"}),
+    dict(file=PRIOR_PY, qualname="Uniform.lnprob", name="uniform_lnprob_src", rettype="option R", params=[("p", "R")],
+         self_attrs={"lower_bound": "lo", "upper_bound": "hi", "_lnprob": "lnp"}),
+    dict(file=PRIOR_PY, qualname="BoundedGaussian.lnprob", name="bgaussian_lnprob_src", rettype="option R", params=[("p", "R")],
+         self_attrs={"lower_bound": "lo", "upper_bound": "hi"}, opaque_exprs={"super().lnprob(p)": "glp"}),
 ]
 
 
